@@ -4,9 +4,11 @@
    uri, modality or caches; != is its negation; any single-element perturbation flips equality;
    .3f formatting is within half a millisecond, str(segment) within one millisecond; the text
    serialisers produce one line per track / segment and refuse exactly when a space is present.
-   Tied by the correspondence, not proved: the from_records / from_df / to_annotation round trips
-   and the exact text of the lines (compared string by string with the Text model). Statements only. *)
-From PV Require Import Model.Text Proofs.SupportP Proofs.AnnotationInvP Proofs.TextEqP Proofs.CanonicalIterP.
+   rebuilding from the records produced by track iteration gives an equal object.
+   Tied by the correspondence, not proved: the from_df and to_annotation round trips (pandas is run,
+   not modelled) and the exact text of the lines (compared string by string with the Text model). Statements only. *)
+From PV Require Import Model.Text Proofs.SupportP Proofs.AnnotationInvP Proofs.TextEqP Proofs.CanonicalIterP
+  Proofs.RoundTripP.
 
 Theorem C12_eq_compares_track_iterations : forall a b, ann_eq a b = true <-> itertracks a = itertracks b.
 Proof. exact ann_eq_spec. Qed.
@@ -28,6 +30,11 @@ Proof. exact perturbation_flips. Qed.
 Theorem C12_extra_or_missing_track_flips_equality : forall a b,
   length (itertracks a) <> length (itertracks b) -> ann_eq a b = false.
 Proof. exact length_differs_flips. Qed.
+
+(* Annotation.from_records(a.itertracks(yield_label=True)) == a, for every reachable annotation *)
+Theorem C12_records_round_trip : forall eps a u md, AInv eps a -> all_distinct_str (a_tracks a) ->
+  ann_eq (from_records eps (itertracks a) u md) a = true.
+Proof. exact records_roundtrip. Qed.
 
 (* text forms *)
 Theorem C12_fmt3_within_half_millisecond : forall scale n, 0 < scale ->
@@ -67,6 +74,7 @@ Print Assumptions C12_eq_ignores_uri_modality_caches.
 Print Assumptions C12_equal_annotations_hold_same_triples.
 Print Assumptions C12_one_differing_triple_flips_equality.
 Print Assumptions C12_extra_or_missing_track_flips_equality.
+Print Assumptions C12_records_round_trip.
 Print Assumptions C12_fmt3_within_half_millisecond.
 Print Assumptions C12_printed_segment_bound_within_one_millisecond.
 Print Assumptions C12_rttm_refused_iff_space.
